@@ -163,9 +163,12 @@ def crash_site(stack):
     # re-panic of reportRequestPanic comes first: the site follows the LAST panic frame)
     last = max([i for i, f in enumerate(funcs) if f == "panic" or f.startswith("runtime.gopanic")], default=-1)
     for f in funcs[last + 1:] if last >= 0 else []:
-        if f.startswith(("runtime.", "runtime/")):
+        if "." not in f.split("/")[0]:          # runtime and standard-library frames (reflect, encoding/json, ...): not the culprit
             continue
         return re.sub(r"^github\.com/tucats/ego/(internal/)?", "", f)
+    for f in funcs[last + 1:] if last >= 0 else []:
+        if not f.startswith(("runtime.", "runtime/")):
+            return f
     return ""
 
 
